@@ -212,7 +212,7 @@ class C04(Prop):
         sims = out.rec.steps[-1]['t'] if out.rec.steps else 0
         if kind in ('stepcap', 'repo_exception'):
             site = out.exc_site or ''
-            if kind == 'repo_exception' and 'controls.py' in site and 'evaluate' in site:
+            if kind == 'repo_exception' and ('controls.py' in site or '_compute_next_timestep_and_run_presolve_controls_and_rules' in site):
                 return verdict('violation', [V('c04.condition_raises', '%s@%s' % (type(out.exc).__name__, site), (out.exc_tb or '')[-600:])], c, dig, sample=world.summary(scn))
             return verdict('discard', [], c, dig, discard='repo_exception_other_property', sample=world.summary(scn))
         if kind.startswith('discard'):
